@@ -1,10 +1,28 @@
 /-
-C10 — kernel-checked witnesses (known finding C10-ppif-int-result-shift, repaired defects).
+C10 — kernel-checked witnesses.
+
+1. KNOWN FINDING `C10-ppif-int-result-shift` (open): in #if, chibicc types the results of
+   `< <= > >= == != ! && ||` as `int` (type.c `add_type`), not intmax_t (C11 6.10.1p4); `eval`
+   reduces every result to the node's type, so shifting such a result left loses the bits above 31.
+   `#if (1 < 2) << 40` is false.  `Props/C10.lean` proves `C10_ifexpr_partial` /
+   `C10_groups_c11_partial` outside the region `intResultOverflows`; here: the negation of the full
+   statements.
+
+2. Witnesses of defects REPAIRED in /repo by `fix:` commits (the models in Model/ follow the
+   repaired code; the pre-fix behaviour is re-modelled here only to keep the witnesses checkable):
+   * include-guard detection without depth tracking (0179c7c),
+   * -idirafter directories searched before the system directories,
+   * the single global `include_next_idx` (a cache hit did not update it; `search_include_next`
+     left it at the directory found),
+   * a null directive glued to the next line.
 -/
-import ChibiVerif.Model.PPExpr
+import ChibiVerif.Props.C10
 
 namespace ChibiVerif.Findings.C10
-open ChibiVerif.CondIncl ChibiVerif.PPExpr
+open ChibiVerif.CondIncl ChibiVerif.PPExpr ChibiVerif.IncludeSearch ChibiVerif.Spec.CondIncl
+open ChibiVerif.Props.C10
+
+-- ================================================================== 1. known finding (open)
 
 /-- `(1 < 2) << 40` -/
 def shiftWitness : Expr := .bin .shl (.bin .lt (.num 1 false) (.num 2 false)) (.num 40 false)
@@ -12,7 +30,134 @@ def shiftWitness : Expr := .bin .shl (.bin .lt (.num 1 false) (.num 2 false)) (.
 /-- C11 6.10.1p4: the controlling expression `(1 < 2) << 40` is nonzero … -/
 theorem C10_witness_shift_spec : ev shiftWitness [] = .ok true := by decide
 
-/-- … chibicc types `1 < 2` as `int`, reduces the shifted value to 32 bits and finds it zero -/
+/-- … chibicc types `1 < 2` as `int`, reduces the shifted value to 32 bits and finds it zero … -/
 theorem C10_witness_shift_code : evC shiftWitness [] = .ok false := by decide
+
+/-- … and the witness lies in the region excluded by `C10_ifexpr_partial` -/
+theorem C10_witness_shift_in_region : intResultOverflows [] shiftWitness = true := by decide
+
+/-- **finding**: the full statement about #if arithmetic is false for the code as it is -/
+theorem C10_finding_ifexpr : ¬ C10_ifexpr_Statement := by
+  intro h
+  have := h [] shiftWitness
+  rw [C10_witness_shift_spec, C10_witness_shift_code] at this
+  exact absurd this (by decide)
+
+/-- `#if (1 < 2) << 40` / `yes` / `#else` / `no` / `#endif` -/
+def shiftUnit : List (Line Expr Body) :=
+  [.opens (.ifE shiftWitness), .plain (.text ["yes"]), .part (.els false), .plain (.text ["no"]), .endif false]
+
+/-- **finding**: chibicc selects `no`, C11 6.10.1 selects `yes` -/
+theorem C10_finding_groups_c11 : ¬ C10_groups_c11_Statement := by
+  intro h
+  have h1 : condMachine evC shiftUnit [] = .ok ⟨[], [["no"]]⟩ := by decide
+  have h2 : groups ev shiftUnit [] = .ok ⟨[], [["yes"]]⟩ := by decide
+  have := h shiftUnit []
+  rw [h1, h2] at this
+  exact absurd this (by decide)
+
+/-- neighbours of the witness outside the region agree (shift by 30; multiplication instead of shift) -/
+theorem C10_witness_shift_neighbours :
+    evC (.bin .shl (.bin .lt (.num 1 false) (.num 2 false)) (.num 30 false)) [] = .ok true ∧
+    evC (.bin .eq (.bin .mul (.bin .lt (.num 1 false) (.num 2 false)) (.num (2^40) false)) (.num (2^40) false)) [] = .ok true := by
+  decide
+
+-- ================================================================== 2a. repaired: include-guard detection
+
+variable {ε β : Type}
+
+/-- the detector before the fix: `#ifndef G` / `#define G` at the top and *some* `#endif` as the last
+    line (it tested `equal(tok, "if")` on the `#` token, so nested conditionals were never stepped
+    over, and an #else of the guard was not noticed) -/
+def detectGuardOld : List (Line ε β) → Option String
+  | .opens (.ifndef g false) :: .plain (.define g' _) :: rest =>
+    if g = g' then
+      (match rest.getLast? with
+       | some (.endif false) => some g
+       | _ => none)
+    else none
+  | _ => none
+
+/-- `#ifndef G / #define G / a / #endif / y / #if 1 / b / #endif` -/
+def earlyClosed : List (Line Bool Unit) :=
+  [.opens (.ifndef "G" false), .plain (.define "G" ()), .plain (.text ["a"]), .endif false,
+   .plain (.text ["y"]), .opens (.ifE true), .plain (.text ["b"]), .endif false]
+
+/-- the old detector remembered this file as guarded by `G`, although with `G` defined it still
+    emits `y` and `b`: a second #include dropped them.  The repaired detector rejects it. -/
+theorem C10_fixed_guard_detection :
+    detectGuardOld earlyClosed = some "G" ∧
+    condMachine (fun b _ => .ok b) earlyClosed [("G", ())] = .ok ⟨[("G", ())], [["y"], ["b"]]⟩ ∧
+    detectGuard earlyClosed = none := by decide
+
+-- ================================================================== 2b. repaired: -idirafter before system
+
+/-- `include_paths` before the fix: parse_args appended the -idirafter directories itself, and main
+    called add_default_include_paths afterwards -/
+def includePathsOld (c : Config) : List String := c.iDirs ++ c.idirafter ++ c.sysDirs
+
+/-- `#include <h.h>` with `-idirafter d`, `h.h` both in `d` and in the system directory `S`: the old
+    order opens `d/h.h`, the documented order (and the repaired code) `S/h.h` -/
+theorem C10_fixed_idirafter_order :
+    firstExisting (fun p => p == "d/h.h" || p == "S/h.h") (includePathsOld ⟨[], ["S"], ["d"]⟩) "h.h" = some "d/h.h" ∧
+    firstExisting (fun p => p == "d/h.h" || p == "S/h.h") (includePaths ⟨[], ["S"], ["d"]⟩) "h.h" = some "S/h.h" ∧
+    Spec.IncludeSearch.search (fun p => p == "d/h.h" || p == "S/h.h") ⟨[], ["S"], ["d"]⟩ "." false "h.h" = some "S/h.h" := by
+  decide
+
+-- ================================================================== 2c. repaired: global include_next_idx
+
+/-- pre-fix `search_include_paths`: a cache *miss* sets the global `include_next_idx` to the index
+    after the directory found; a cache *hit* leaves it alone -/
+def searchIncludePathsOld (fsx : String → Bool) (paths : List String) (st : Cache × Nat) (name : String) :
+    Option String × (Cache × Nat) :=
+  match st.1.get name with
+  | some p => (some p, st)
+  | none =>
+    let i := paths.findIdx (fun d => fsx (joinPath d name))
+    if i < paths.length then (some (joinPath (paths.getD i "") name), ((name, joinPath (paths.getD i "") name) :: st.1, i + 1))
+    else (none, st)
+
+/-- pre-fix `search_include_next`: continue from the global index -/
+def searchIncludeNextOld (fsx : String → Bool) (paths : List String) (idx : Nat) (name : String) : Option String :=
+  firstExisting fsx (paths.drop idx) name
+
+/-- -IA -IB -IC; A/x.h, B/x.h, C/y.h.  The main file includes <x.h>, <y.h>, <x.h>; A/x.h says
+    `#include_next <x.h>`.  First time: found at index 0, the global is 1, #include_next finds B/x.h.
+    Then <y.h> moves the global to 3.  Second <x.h>: cache hit, the global stays 3, #include_next
+    starts behind the end of the list and finds nothing ("cannot open file") – the cache changed the
+    answer.  The repaired `search_include_next` (directory of the current file) finds B/x.h both times. -/
+theorem C10_fixed_include_next_global :
+    let fsx : String → Bool := fun p => p == "A/x.h" || p == "B/x.h" || p == "C/y.h"
+    let paths := ["A", "B", "C"]
+    let s1 := searchIncludePathsOld fsx paths ([], 0) "x.h"
+    let n1 := searchIncludeNextOld fsx paths s1.2.2 "x.h"
+    let s2 := searchIncludePathsOld fsx paths s1.2 "y.h"
+    let s3 := searchIncludePathsOld fsx paths s2.2 "x.h"
+    let n3 := searchIncludeNextOld fsx paths s3.2.2 "x.h"
+    s1.1 = some "A/x.h" ∧ n1 = some "B/x.h" ∧ s3.1 = some "A/x.h" ∧ n3 = none ∧
+    searchIncludeNext fsx paths "x.h" "A/x.h" = some "B/x.h" := by decide
+
+/-- … and it left the index *at* the directory found: from B/x.h a further `#include_next <x.h>`
+    found B/x.h again (unbounded recursion), where the repaired code reaches C/x.h -/
+theorem C10_fixed_include_next_self :
+    let fsx : String → Bool := fun p => p == "A/x.h" || p == "B/x.h" || p == "C/x.h"
+    firstExisting fsx (["A", "B", "C"].drop 1) "x.h" = some "B/x.h" ∧       -- old: index stays 1 after finding B/x.h
+    searchIncludeNext fsx ["A", "B", "C"] "x.h" "B/x.h" = some "C/x.h" := by decide
+
+-- ================================================================== 2d. repaired: null directive glued to the next line
+
+/-- how the pre-fix code read `#` *newline* `else …`: as the directive `#else` (it looked at the
+    token after `#` without checking that it is on the same line) -/
+def glueNull : List (Line Bool Unit) → List (Line Bool Unit)
+  | .plain .other :: .plain (.text ("else" :: _)) :: rest => .part (.els true) :: glueNull rest
+  | l :: rest => l :: glueNull rest
+  | [] => []
+
+/-- `#if 1 / a / # / else b / #endif / c`: the text line `else b` was taken for `#else`, so `b` was lost -/
+theorem C10_fixed_null_directive :
+    let u : List (Line Bool Unit) := [.opens (.ifE true), .plain (.text ["a"]), .plain .other,
+      .plain (.text ["else", "b"]), .endif false, .plain (.text ["c"])]
+    condMachine (fun b _ => .ok b) (glueNull u) [] = .ok ⟨[], [["a"], ["c"]]⟩ ∧
+    condMachine (fun b _ => .ok b) u [] = .ok ⟨[], [["a"], ["else", "b"], ["c"]]⟩ := by decide
 
 end ChibiVerif.Findings.C10
